@@ -1,15 +1,13 @@
 SPECIFICATION Spec
 CONSTANTS
-  Depth = 4
+  Depth = 10
   BugGlobalFallback = FALSE
   BugSharedInstance = FALSE
   BugCloneShares = FALSE
-  Focus = "all"
-  Emit = FALSE
-VIEW AbstractView
+  Focus = "objects"
+  Emit = TRUE
 INVARIANT Reproducible
 INVARIANT SeedsDiffer
 INVARIANT GlobalUntouched
-PROPERTY Isolated
-PROPERTY GlobalOnlyByGlobalActions
+INVARIANT EmitBehaviour
 CHECK_DEADLOCK FALSE
